@@ -48,6 +48,15 @@ QrWord(rows, cc, pi, lcss) == LET m == cc * 8 + pi * 4 + lcss IN XorAll({i \in 1
 \* no SYNC pattern can be mistaken for embedded signalling: its outer 8 + 8 bits are not a QR(16,7,6) word
 OuterWord(name) == (Sync[name][1] \div 256) * 256 + (Sync[name][3] % 256)
 QrData(w) == w \div 512
+\* ... and how close valid embedded signalling can come to one: the voice bursts whose centre (EMB, 32 embedded bits, EMB)
+\* is nearest to a SYNC pattern carry the pattern's middle 32 bits and an EMB word at this distance from its outer bits
+Weight(x) == Cardinality({i \in 0..15 : Bit(x, i) = 1})
+EmbSyncDistance(qr, cc, pi, lcss, name) == Weight(QrWord(qr, cc, pi, lcss) ^^ OuterWord(name))
+NearSync(qr, maxd) ==
+  LET all == { [cc |-> cc, pi |-> pi, lcss |-> lcss, sync |-> n, dist |-> EmbSyncDistance(qr, cc, pi, lcss, n),
+                mid |-> <<(Sync[n][1] % 256) * 256 + Sync[n][2] \div 256, (Sync[n][2] % 256) * 256 + Sync[n][3] \div 256>>] :
+               cc \in 0..15, pi \in 0..1, lcss \in 0..3, n \in DOMAIN Sync }
+  IN {r \in all : r.dist <= maxd}
 NoSyncLooksLikeEmb(qr) == \A n \in DOMAIN Sync :
                              LET w == OuterWord(n) IN QrWord(qr, QrData(w) \div 8, (QrData(w) \div 4) % 2, QrData(w) % 4) # w
 =============================================================================
